@@ -416,8 +416,16 @@ class Ctx:
         self.cov["checker_cmd"] = "make -f Makefile.coq <deps of Props/Properties_%s.vo> && coqc -Q . ScV Props/Properties_%s.v (full .vo, Print Assumptions parsed)" % (self.pid, self.pid)
         self.notes["theorems"] = r["names"]
         self.notes["axioms_reported"] = sorted(set(a for l in r["assumptions"].values() for a in l))
+        # theorems that fail for one and the same reason (a dependency that no longer checks) are one entry, so that
+        # the other broken ties (model/implementation disagreements with their cases) stay visible in the report
+        by_reason = {}
         for n, d in r["failed"]:
-            self.broken.append(("theorem " + n, d))
+            by_reason.setdefault(d, []).append(n)
+        for d, ns in by_reason.items():
+            if len(ns) == 1:
+                self.broken.append(("theorem " + ns[0], d))
+            else:
+                self.broken.append(("%d theorems (%s%s)" % (len(ns), ", ".join(ns[:6]), ", ..." if len(ns) > 6 else ""), d))
         for n in r["names"][:4]:
             self.sample({"obligation": n})
         self.log("proof obligations: %d/%d discharged" % (r["discharged"], r["obligations"]))
